@@ -58,7 +58,7 @@ Print Assumptions C18_merge_ranges_wf.
    from the current source on every run (Generated/Kernels.v); each tie states that the translated
    function equals the model definition used above, on the whole range of the Go types
    (Generated/KernelTie.v; `True` for a kernel the translator reports as not translated). ---- *)
-From BS Require Import Generated.KernelTie Proofs.KernelEquivM.
+From BS Require Import Generated.KernelTie Proofs.KTie_update_mm.
 
 Theorem C18_kernel_tie_update_mm : tie_update_mm.
 Proof. exact k_update_mm_tie. Qed.
